@@ -194,8 +194,72 @@ def rvstr(r):
 
 
 # ------------------------------------------------------------------ bodies
+def _release_view(d):
+    """The rules read the release build: `if cfg!(debug_assertions) { .. }` (debug_assert!, debug_assert_eq!) is compiled out there,
+    cannot change a result where it exists, and its conditions (raw comparisons restating an invariant, extra calls of the
+    validator) are not part of what the code decides.  The switch on the macro's constant becomes a jump to its false edge and
+    the blocks only reachable through the true edge are emptied.  Returns the number of regions removed."""
+    blocks = d.get("blocks") or []
+    n = 0
+    for i, blk in enumerate(blocks):
+        t = blk.get("t") or {}
+        if "switch" not in t or "cfg" not in str(t.get("x") or ""):
+            continue
+        op = t["switch"]
+        cst = op.get("c")
+        if cst is None:
+            l = (op.get("cp") if "cp" in op else op.get("mv"))
+            l = l if isinstance(l, int) else None
+            if l is not None:
+                defs = [s for b2 in blocks for s in b2["s"] if "d" in s and s["d"] == l]
+                if len(defs) == 1 and "use" in defs[0]["r"]:
+                    cst = defs[0]["r"]["use"].get("c")
+        if not (isinstance(cst, dict) and "bool" in cst):
+            continue
+        false_t = next((tg for v, tg in t["targets"] if v == 0), None)
+        if false_t is None:
+            continue
+        true_t = t["otherwise"]
+
+        def succ(k, skip_edge=None):
+            tt = blocks[k]["t"]
+            out = []
+            if "goto" in tt:
+                out.append(tt["goto"])
+            if "switch" in tt:
+                out += [tg for _, tg in tt["targets"]] + [tt["otherwise"]]
+            for key in ("target", "unwind", "cleanup"):
+                if isinstance(tt.get(key), int):
+                    out.append(tt[key])
+            if "drop" in tt and isinstance(tt.get("target"), int):
+                out.append(tt["target"])
+            return [x for x in out if not (skip_edge and (k, x) == skip_edge)]
+
+        def reach(skip_edge=None):
+            seen, st = {0}, [0]
+            while st:
+                k = st.pop()
+                for x in succ(k, skip_edge):
+                    if x not in seen and 0 <= x < len(blocks):
+                        seen.add(x)
+                        st.append(x)
+            return seen
+        region = reach() - reach((i, true_t)) if true_t != false_t else set()
+        blk["t"] = {"goto": false_t, "ln": t.get("ln", 0), "x": t.get("x")}
+        blk["debug_assert_removed"] = True
+        for k in region:
+            if k != i:
+                blocks[k]["s"] = []
+                blocks[k]["t"] = {"unreachable": None, "ln": blocks[k]["t"].get("ln", 0)}
+        n += 1
+    return n
+
+
 class Body:
     def __init__(self, d, crate, facts):
+        if not d.get("_release_view") and not os.environ.get("VERIF_KEEP_DEBUG_ASSERTIONS"):
+            d["_release_view"] = True
+            d["debug_regions"] = _release_view(d)
         self.d = d
         self.crate = crate
         self.facts = facts
